@@ -846,16 +846,8 @@ brk("B54c", "redefine_many mutates through object.__setattr__",
         return self''')], {"C16": "R16.4|"})
 
 brk("B57", "module-level cache of resolved references filled in RefResolver.resolve",
-    [(V, '''    def resolve(self, ref):
-        """
-        Resolve the given reference.
-        """
-        url = self._urljoin_cache(self.resolution_scope, ref)
-        return url, self._remote_cache(url)''', '''    def resolve(self, ref):
-        """
-        Resolve the given reference.
-        """
-        url = self._urljoin_cache(self.resolution_scope, ref)
+    [(V, '''            url = self.base_uri + ref
+        return url, self._remote_cache(url)''', '''            url = self.base_uri + ref
         if url not in _RESOLVED:
             _RESOLVED[url] = self._remote_cache(url)
         return url, _RESOLVED[url]''')], {"C18": "R18.2|"})
